@@ -896,15 +896,24 @@ func (g *fgen) reobsCase() {
 	g.emit("reobs %s %s now=%d reqs=%s fwd=%s res=%s", id, line, now, fjoin(n.takeLog(), ","), fjoin(drainPubs(msgC), ","), res)
 }
 
+// genC08: finality predicates with exact boundaries, the confirmed-event handler, the event loop with batches handed in
+// directly, the whole polling pipeline (fewer cases than under C09) and the re-observation path.
 func (g *fgen) genC08() {
-	nConf, nHconf, nPoll, nReobs := 1500, 300, 500, 1500
+	nConf, nHconf, nPoll, nPipe, nReobs := 1500, 300, 500, 200, 1500
 	if g.tier == "thorough" {
-		nConf, nHconf, nPoll, nReobs = 20000, 3000, 6000, 20000
+		nConf, nHconf, nPoll, nPipe, nReobs = 20000, 3000, 6000, 2500, 20000
 	}
 	g.genConf(nConf)
 	g.genHconf(nHconf)
 	for i := 0; i < nPoll; i++ {
 		g.pollCase()
+	}
+	for i := 0; i < nPipe; i++ {
+		if i%4 == 3 {
+			g.pipeCase("faulty")
+		} else {
+			g.pipeCase("clean")
+		}
 	}
 	for i := 0; i < nReobs; i++ {
 		g.reobsCase()
